@@ -219,6 +219,16 @@ def _group(p):
         o.check("z0_returns_input", y.shape == u0.shape and bool(numpy.array_equal(y, u0)),
                 sub="field:zero=" + name)
 
+    # ---- a field stored in a real dtype (a transmission mask, an amplitude at its waist) is the same field
+    ur = numpy.round(u0.real * 4.0) + 3.0
+    for s_ in STEPS:
+        for mag in (1.0, 1.3):
+            want = numpy.asarray(op.angularSpectrum(ur.astype(complex), wvl, d, mag * d, s_ * z0))
+            for dt in (numpy.float64, numpy.int64, numpy.float32):
+                got = numpy.asarray(op.angularSpectrum(ur.astype(dt), wvl, d, mag * d, s_ * z0))
+                o.stat("lib_calls", 1)
+                o.close("real_dtype_field_is_the_same_field", _maxabs(got - want) / _maxabs(want) if got.shape == want.shape else float("inf"),
+                        1e-5 if dt is numpy.float32 else TOL, sub="dz=%+d:mag=%g:%s" % (s_, mag, numpy.dtype(dt).name))
     # ---- real per-step operators (E2)
     T = {s: extract(s * z0) for s in STEPS}
     o.note("min_step_distance_from_identity", min(_maxabs(T[s] - I) for s in STEPS))
